@@ -633,6 +633,17 @@ func (c *c12run) honestMessage() *c12msg {
 			}
 		}
 		tx := &types.Transaction{AccountNonce: nonce, Epoch: ep, Type: types.SubmitFlipTx, MaxFee: new(big.Int).Mul(common.DnaBase, big.NewInt(50)), Payload: attachments.CreateFlipSubmitAttachment(cid, uint8(r.Choose("c12.flip.pair", 3)))}
+		// the transaction inside a flip message is whatever the peer put there: another type (valid on its own), or a
+		// submit-flip transaction whose payload is not an attachment
+		switch r.ChooseOpt("c12.flip.txkind", 6) {
+		case 3:
+			to := c.pickIdent().Addr
+			tx = &types.Transaction{AccountNonce: nonce, Epoch: ep, Type: types.SendTx, To: &to, Amount: big.NewInt(1), MaxFee: new(big.Int).Mul(common.DnaBase, big.NewInt(50))}
+		case 4:
+			tx.Payload = c.drawBytes("c12.flip.payload")
+		case 5:
+			tx.Type = uint16(r.Choose("c12.flip.txtype", 24))
+		}
 		signed, _ := types.SignTx(tx, id.Key)
 		f := &types.Flip{Tx: signed, PublicPart: pub, PrivatePart: priv}
 		if r.Choose("c12.flip.notx", 8) == 0 {
